@@ -457,6 +457,18 @@ class Program(object):
 
 
 # --------------------------------------------------------------------------
+_PLAIN = [False]
+
+
+def expr_plain(n):
+    """expr_str with every cast node rendered as its operand."""
+    _PLAIN[0] = True
+    try:
+        return expr_str(n)
+    finally:
+        _PLAIN[0] = False
+
+
 def expr_str(n, depth=0):
     """compact, position-free rendering of an expression/statement subtree."""
     if n is None:
@@ -464,6 +476,8 @@ def expr_str(n, depth=0):
     if depth > 12:
         return "…"
     k = n.get("k")
+    if _PLAIN[0] and k == "cast":
+        return expr_str(n.child("e"), depth)
     c = lambda key: expr_str(n.child(key), depth + 1)
     if k == "ref":
         return n.get("n", "?")
